@@ -139,6 +139,8 @@ TG  == Sub(4, "G",  "K",  16, 16, 8, 8, 3, 3, 2, "v")      \* one cell of K: sha
 \* a sibling of K that OVERLAPS it (x 0..32, y 16..32) and touches G along y = 16: forbidden by the NTv2
 \* specification, not by the statement; every end of a chain of containing sub-grids is admissible (Grid.tla: ChainEnds)
 TK3 == Sub(6, "K3", "R",  64, 0, 16, 16, 4, 4, 2, "v")
+\* a sibling of K that shares K's northern border (x 0..32, y 32..64): the parent's west half is tiled by K and K4
+TK4 == Sub(7, "K4", "R",  64, 0, 16, 16, 3, 3, 2, "v")
 \* a consistent tree: the child densifies the central cell of the root
 CR  == Sub(1, "R",  "NONE", 48, 0, 16, 16, 4, 4, 2, "root")
 CK  == Sub(2, "K",  "R",    32, 16, 8, 8, 3, 3, 2, "cons")
@@ -154,6 +156,7 @@ TreesT == Trees(<<TR>>, Perms(1), 4096) \o Trees(<<TR, TK>>, Perms(2), 4096) \o 
           \o Trees(<<TR, TK, TG>>, Perms(3), 4096) \o Trees(<<TR, TK, TK2, TG>>, Perms(4), 4096)
           \o Trees(<<TR, TR2, TK>>, Perms(3), 4096) \o Trees(<<CR, CK>>, Perms(2), 16384)
           \o Trees(<<TR, TK, TK3>>, Perms(3), 4096) \o Trees(<<TR, TK, TK3, TG>>, Perms(4), 4096)
+          \o Trees(<<TR, TK, TK4>>, Perms(3), 4096) \o Trees(<<TR, TK, TK4, TG>>, Perms(4), 4096)
 \* quick: every shape, a child before its parent and after it, the grandchild first
 TreesQ == Trees(<<TR, TK>>, Perms(2), 4096)
           \o Trees(<<TR, TK, TG>>, {<<3, 2, 1>>, <<1, 2, 3>>}, 4096)
@@ -162,6 +165,8 @@ TreesQ == Trees(<<TR, TK>>, Perms(2), 4096)
           \* overlapping siblings in both file orders, before and after the root, with a grandchild
           \o Trees(<<TR, TK, TK3>>, {<<1, 2, 3>>, <<1, 3, 2>>, <<3, 2, 1>>}, 4096)
           \o Trees(<<TR, TK, TK3, TG>>, {<<1, 2, 3, 4>>, <<4, 3, 2, 1>>}, 4096)
+          \* siblings sharing an edge, in both file orders, before and after the root
+          \o Trees(<<TR, TK, TK4>>, {<<1, 2, 3>>, <<1, 3, 2>>, <<3, 2, 1>>, <<2, 3, 1>>}, 4096)
 
 KOffQ == {-5, -3, 0, 3, 5}
 KOffT == {-5, -3, -2, -1, 0, 1, 2, 3, 5}
@@ -346,9 +351,16 @@ SpellingInv == (AtScen /\ Spelled(Sc)) =>
 \* 11. overlapping siblings: the reference's own choice is one of the admissible ends, and there are several
 SiblingInv == AtPoint =>
     \A fi \in 1..Len(Sc.files) : LET f == Sc.files[fi] IN
-        InSiblingOverlap(f, p) => /\ Cardinality(ChainEnds(f, p)) >= 2
+        /\ InSiblingOverlap(f, p) => /\ Cardinality(ChainEnds(f, p)) >= 2
+                                     /\ FindGrid(f, p, 0) \in ChainEnds(f, p)
+                                     /\ \A i \in ChainEnds(f, p) : f[i].parent # "NONE"
+        \* a shared edge: the two siblings and nothing else; the parent's value there differs from both (else a
+        \* reader that falls back to the parent could not be told from one that does not)
+        /\ OnSharedEdge(f, p) => /\ Cardinality(ChainEnds(f, p)) = 2
                                   /\ FindGrid(f, p, 0) \in ChainEnds(f, p)
-                                  /\ \A i \in ChainEnds(f, p) : f[i].parent # "NONE"
+                                  /\ \A i \in ChainEnds(f, p) :
+                                        /\ f[i].parent # "NONE"
+                                        /\ ~SameVal(AtSub(f, i, p, 0), AtSub(f, IndexOf(f, f[i].parent), p, 0))
 
 \* the catalogue itself is well formed (children inside parents, aligned)
 WellFormedInv == AtScen =>
@@ -402,7 +414,7 @@ OneOf(sc) ==
     IF sc.name # "tree" THEN {} ELSE
     LET f == sc.files[1] IN
     {<<q.x, q.y, SetToSeq({<<Den(f[i])>> \o AtSub(f, i, q, 0).num : i \in ChainEnds(f, q)})>>
-        : q \in {q \in PointsOf(sc) : InSiblingOverlap(f, q)}}
+        : q \in {q \in PointsOf(sc) : InSiblingOverlap(f, q) \/ OnSharedEdge(f, q)}}
 
 EmitSc == AtScen =>
     PrintT(<<"SCEN", ToJson([
